@@ -58,9 +58,9 @@ type structT struct {
 func (s *structT) q() string { return s.Pkg + "." + s.Name }
 
 type universe struct {
-	structs map[string]*structT   // "node.X"
+	structs map[string]*structT // "node.X"
 	ifaces  map[string]*ast.InterfaceType
-	named   map[string]ast.Expr   // other named types -> underlying
+	named   map[string]ast.Expr                 // other named types -> underlying
 	methods map[string]map[string]*ast.FuncDecl // "node.X" -> method name -> decl (pointer or value receiver)
 	order   []string
 }
@@ -1185,6 +1185,252 @@ func stripCall(e ast.Expr) ast.Expr {
 	return e
 }
 
+// ---------------------------------------------------------------- generator-wide state
+//
+// The Generator translates one FILE at a time and keeps per-file values (`file`, `namespace`, set by
+// Generate from the ParsedFile) next to its printer state (`buf`, `indent`, `importAliases`). An AST
+// node may carry the same kind of information per NODE (CallLater.namespace: the namespace in force
+// where the call was written). A handler that prints the generator's value where the node has its own
+// is right for every file whose nodes all agree with the file-level value (one namespace per file) and
+// wrong for the others. Regenerated:
+//   generatorFields   the fields of struct Generator, in source order
+//   generateAssigns   `g.X = pf.Y` assignments of Generator.Generate
+//   parsedNamespace   the expression parseFiles stores in ParsedFile.Namespace
+//   ctxReads          per registered handler (closure over the package-local helpers it calls, not
+//                     through Emit): every use of a Generator FIELD, classified
+//                       emit         argument of g.printf / fmt.Sprintf …: reaches the generated text
+//                       diag         argument of newEmitError / wrapEmitError / fmt.Errorf: a message
+//                       write        assigned / incremented (g.indent++)
+//                       pass:<fn>    handed to another function
+//                       bind         bound to a local variable
+//                       other
+
+func structFieldNames(files map[string]*ast.File, name string) []string {
+	var out []string
+	var fnames []string
+	for fn := range files {
+		fnames = append(fnames, fn)
+	}
+	sort.Strings(fnames)
+	for _, fn := range fnames {
+		for _, d := range files[fn].Decls {
+			gd, ok := d.(*ast.GenDecl)
+			if !ok || gd.Tok != token.TYPE {
+				continue
+			}
+			for _, sp := range gd.Specs {
+				ts := sp.(*ast.TypeSpec)
+				st, ok := ts.Type.(*ast.StructType)
+				if !ok || ts.Name.Name != name {
+					continue
+				}
+				for _, fl := range st.Fields.List {
+					if len(fl.Names) == 0 {
+						out = append(out, baseIdent(fl.Type))
+					}
+					for _, nm := range fl.Names {
+						out = append(out, nm.Name)
+					}
+				}
+			}
+		}
+	}
+	return out
+}
+
+// generatorIdents: the names under which fd sees the *Generator (receiver, parameters)
+func generatorIdents(fd *ast.FuncDecl) map[string]bool {
+	ids := map[string]bool{}
+	isGen := func(e ast.Expr) bool { return baseIdent(e) == "Generator" }
+	if fd.Recv != nil {
+		for _, r := range fd.Recv.List {
+			if isGen(r.Type) {
+				for _, n := range r.Names {
+					ids[n.Name] = true
+				}
+			}
+		}
+	}
+	for _, p := range fd.Type.Params.List {
+		if isGen(p.Type) {
+			for _, n := range p.Names {
+				ids[n.Name] = true
+			}
+		}
+	}
+	return ids
+}
+
+type ctxRead struct{ Fn, Ty, Field, Use string }
+
+// reach: fn and every package-local function it calls (not through the reflective machinery)
+func (a *analyzer) reach(fn string) []string {
+	seen := map[string]bool{}
+	var out []string
+	var rec func(n string)
+	rec = func(n string) {
+		if seen[n] {
+			return
+		}
+		seen[n] = true
+		out = append(out, n)
+		_, cs := a.own(n)
+		for _, c := range cs {
+			rec(c)
+		}
+	}
+	rec(fn)
+	return out
+}
+
+func (a *analyzer) fieldUse(sel *ast.SelectorExpr, stack []ast.Node) string {
+	for i := len(stack) - 1; i >= 0; i-- {
+		switch p := stack[i].(type) {
+		case *ast.IncDecStmt:
+			return "write"
+		case *ast.AssignStmt:
+			for _, l := range p.Lhs {
+				if l == ast.Expr(sel) {
+					return "write"
+				}
+			}
+			for _, rhs := range p.Rhs {
+				if rhs == ast.Expr(sel) {
+					return "bind"
+				}
+			}
+		case *ast.CallExpr:
+			inArgs := false
+			for _, arg := range p.Args {
+				if containsNode(arg, sel) {
+					inArgs = true
+				}
+			}
+			if !inArgs {
+				continue
+			}
+			f := funString(p.Fun)
+			switch {
+			case strings.HasSuffix(f, ".printf") || f == "fmt.Sprintf" || f == "fmt.Fprintf" || f == "fmt.Sprint" || strings.HasSuffix(f, ".WriteString"):
+				return "emit"
+			case f == "newEmitError" || f == "wrapEmitError" || f == "fmt.Errorf" || f == "errors.New":
+				return "diag"
+			case f == "len" || f == "strings.Repeat":
+				continue
+			}
+			if callee := a.localCallee(p); callee != "" {
+				return "pass:" + callee
+			}
+			return "pass:" + f
+		}
+	}
+	return "other"
+}
+
+func containsNode(root ast.Node, target ast.Node) bool {
+	found := false
+	ast.Inspect(root, func(n ast.Node) bool {
+		if n == target {
+			found = true
+		}
+		return !found
+	})
+	return found
+}
+
+func (a *analyzer) ctxReadsOf(fn, ty string, genFields map[string]bool) []ctxRead {
+	seen := map[ctxRead]bool{}
+	var out []ctxRead
+	for _, name := range a.reach(fn) {
+		fd := a.funcs[name]
+		if fd == nil || fd.Body == nil {
+			continue
+		}
+		ids := generatorIdents(fd)
+		if len(ids) == 0 {
+			continue
+		}
+		var stack []ast.Node
+		ast.Inspect(fd.Body, func(n ast.Node) bool {
+			if n == nil {
+				stack = stack[:len(stack)-1]
+				return true
+			}
+			if se, ok := n.(*ast.SelectorExpr); ok {
+				if id, ok := se.X.(*ast.Ident); ok && ids[id.Name] && genFields[se.Sel.Name] {
+					r := ctxRead{fn, ty, se.Sel.Name, a.fieldUse(se, stack)}
+					if !seen[r] {
+						seen[r] = true
+						out = append(out, r)
+					}
+				}
+			}
+			stack = append(stack, n)
+			return true
+		})
+	}
+	sort.Slice(out, func(i, j int) bool {
+		if out[i].Field != out[j].Field {
+			return out[i].Field < out[j].Field
+		}
+		return out[i].Use < out[j].Use
+	})
+	return out
+}
+
+// generateAssigns: the `g.X = pf.Y` statements of Generator.Generate
+func generateAssigns(fd *ast.FuncDecl) [][2]string {
+	var out [][2]string
+	if fd == nil || fd.Body == nil {
+		return nil
+	}
+	ids := generatorIdents(fd)
+	for _, st := range fd.Body.List {
+		as, ok := st.(*ast.AssignStmt)
+		if !ok || len(as.Lhs) != 1 || len(as.Rhs) != 1 {
+			continue
+		}
+		se, ok := as.Lhs[0].(*ast.SelectorExpr)
+		if !ok {
+			continue
+		}
+		if id, ok := se.X.(*ast.Ident); !ok || !ids[id.Name] {
+			continue
+		}
+		rhs := funString(as.Rhs[0])
+		if strings.HasPrefix(rhs, "pf.") {
+			out = append(out, [2]string{se.Sel.Name, rhs})
+		}
+	}
+	return out
+}
+
+// parsedFileField: the expression stored in field name of the ParsedFile literal built by fd
+func parsedFileField(fd *ast.FuncDecl, name string) string {
+	res := ""
+	if fd == nil || fd.Body == nil {
+		return ""
+	}
+	ast.Inspect(fd.Body, func(n ast.Node) bool {
+		cl, ok := n.(*ast.CompositeLit)
+		if !ok || baseIdent(cl.Type) != "ParsedFile" {
+			return true
+		}
+		for _, el := range cl.Elts {
+			if kv, ok := el.(*ast.KeyValueExpr); ok {
+				if id, ok := kv.Key.(*ast.Ident); ok && id.Name == name {
+					res = ex.TypeString(kv.Value)
+					if ce, ok := kv.Value.(*ast.CallExpr); ok {
+						res = funString(ce.Fun) + "()"
+					}
+				}
+			}
+		}
+		return true
+	})
+	return res
+}
+
 // ---------------------------------------------------------------- registries
 
 func registry(f *ast.File, varName string) (map[string]string, []string) {
@@ -1525,7 +1771,7 @@ func main() {
 	sort.Strings(names)
 
 	var sb strings.Builder
-	sb.WriteString("import Model.Emit\nimport Model.EmitOrder\nimport Model.EmitFuse\n/-! Struct tables of node/*.go and data/*.go, the handler registries of cmd/compile and the\nfields each handler reads; call sequences of VM.RunCompiledFile / VM.LoadAndRun. -/\nnamespace Generated.C16CompileNodes\nopen Model.Emit\n\n")
+	sb.WriteString("import Model.Emit\nimport Model.EmitOrder\nimport Model.EmitFuse\nimport Model.EmitCtx\n/-! Struct tables of node/*.go and data/*.go, the handler registries of cmd/compile and the\nfields each handler reads; call sequences of VM.RunCompiledFile / VM.LoadAndRun. -/\nnamespace Generated.C16CompileNodes\nopen Model.Emit\n\n")
 	sb.WriteString("/-- structs that can occur in an AST handed to `Generator.Emit` -/\ndef structs : List StructDesc := [\n")
 	for i, q := range names {
 		st := u.structs[q]
@@ -1605,6 +1851,77 @@ func main() {
 		}
 		heads, builds := an.handlerOut(special[q])
 		fmt.Fprintf(&sb, "  ⟨%s, %s, %s, %s⟩%s\n", ex.LeanString(q), ex.LeanString(special[q]), leanList(heads), leanList(builds), sep)
+	}
+	sb.WriteString("]\n\n")
+
+	// ---- generator-wide state
+	genFieldList := structFieldNames(cfiles, "Generator")
+	if len(genFieldList) == 0 {
+		changed("struct Generator not found in cmd/compile")
+	}
+	genFieldSet := map[string]bool{}
+	for _, f := range genFieldList {
+		genFieldSet[f] = true
+	}
+	fmt.Fprintf(&sb, "/-- the fields of `Generator` (cmd/compile/gen.go), in source order -/\ndef generatorFields : List String := %s\n\n", leanList(genFieldList))
+	fmt.Fprintf(&sb, "/-- the fields of `ParsedFile` (cmd/compile/parse.go) -/\ndef parsedFileFields : List String := %s\n\n", leanList(structFieldNames(cfiles, "ParsedFile")))
+	sb.WriteString("/-- `g.X = pf.Y` in `Generator.Generate`: the per-file values the generator keeps -/\ndef generateAssigns : List (String × String) := [")
+	gas := generateAssigns(an.funcs["Generate"])
+	for i, ga := range gas {
+		if i > 0 {
+			sb.WriteString(", ")
+		}
+		fmt.Fprintf(&sb, "(%s, %s)", ex.LeanString(ga[0]), ex.LeanString(ga[1]))
+	}
+	sb.WriteString("]\n\n")
+	if len(gas) == 0 {
+		changed("Generator.Generate: no `g.X = pf.Y` assignment found")
+	}
+	{
+		// package-level variables of cmd/compile: state that outlives one file (a handler could keep a
+		// "current namespace" there instead of in the Generator)
+		var pv []string
+		for fn, f := range cfiles {
+			if strings.HasSuffix(fn, "_test.go") {
+				continue
+			}
+			for _, d := range f.Decls {
+				if gd, ok := d.(*ast.GenDecl); ok && gd.Tok == token.VAR {
+					for _, sp := range gd.Specs {
+						for _, nm := range sp.(*ast.ValueSpec).Names {
+							pv = append(pv, nm.Name)
+						}
+					}
+				}
+			}
+		}
+		sort.Strings(pv)
+		fmt.Fprintf(&sb, "/-- the package-level variables of cmd/compile (state that outlives one file) -/\ndef packageVars : List String := %s\n\n", leanList(pv))
+	}
+	pns := parsedFileField(an.funcs["parseFiles"], "Namespace")
+	if pns == "" {
+		changed("parseFiles: ParsedFile{… Namespace: …} not found")
+	}
+	fmt.Fprintf(&sb, "/-- what `parseFiles` stores in `ParsedFile.Namespace` (the parser's namespace AFTER the whole file: the last section) -/\ndef parsedNamespace : String := %s\n\n", ex.LeanString(pns))
+	sb.WriteString("/-- every use of a `Generator` field in the closure of a registered handler (not through `Emit`):\nhandler, handled type, field, use (emit | diag | write | pass:<fn> | bind | other) -/\ndef ctxReads : List Model.EmitCtx.CtxRead := [\n")
+	{
+		var all []ctxRead
+		for _, q := range specialOrder {
+			all = append(all, an.ctxReadsOf(special[q], q, genFieldSet)...)
+		}
+		for _, q := range scalarOrder {
+			all = append(all, an.ctxReadsOf(scalars[q], q, genFieldSet)...)
+		}
+		for i, r := range all {
+			sep := ","
+			if i == len(all)-1 {
+				sep = ""
+			}
+			fmt.Fprintf(&sb, "  ⟨%s, %s, %s, %s⟩%s\n", ex.LeanString(r.Fn), ex.LeanString(r.Ty), ex.LeanString(r.Field), ex.LeanString(r.Use), sep)
+		}
+		if len(all) == 0 {
+			changed("no use of a Generator field found in the handlers (context analysis lost its footing)")
+		}
 	}
 	sb.WriteString("]\n\n")
 	fmt.Fprintf(&sb, "/-- `emitStructLiteral` writes `Node: node.NewNode(from)` only for an embedded `*Node` tagged `pp:\"-\"` -/\ndef nodeNeedsTag : Bool := %v\n\n", needsTag)
